@@ -38,6 +38,8 @@ def scenarios(rep, tier, seed):
         met = S.ZERO_TOLERANT_METRICS[i % len(S.ZERO_TOLERANT_METRICS)]
         scns.append(S.random_float_scenario(rng4, kind=("semi" if i % 5 == 4 else "sup"), metric=met, n=rng4.randrange(4, 12), nu=(2 if i % 5 == 4 else 0), nq=0, dim=rng4.randrange(2, 6), sparse=True, mode="metric", classes=rng4.choice([2, 3])))
     scns += S.bootstrap_scenarios(random.Random(seed * 1000003 + 205), 80 if thorough else 20, nq=0)
+    scns += S.prefile_scenarios(random.Random(seed * 1000003 + 206), 90 if thorough else 24, nq=0)
+    scns += S.prefile_scenarios(random.Random(seed * 1000003 + 207), 30 if thorough else 8, kind="semi", nq=0, nu=2)
     scns += S.extreme_unit_scenarios(random.Random(seed * 1000003 + 202), 160 if thorough else 40, nq=0)
     scns += S.extreme_unit_scenarios(random.Random(seed * 1000003 + 203), 40 if thorough else 12, kind="semi", nq=0, nu=2)
     return scns
